@@ -65,6 +65,12 @@ func genSignature(rt *rapid.T) []sigInput {
 		}
 		sig[i].shadowed = rapid.IntRange(0, 5).Draw(rt, "shadowed") == 0
 	}
+	if n >= 2 && rapid.IntRange(0, 7).Draw(rt, "allDefaults") == 0 {
+		// a model whose inputs all have defaults (every subset of them is a valid call)
+		for i := range sig {
+			sig[i].shadowed = true
+		}
+	}
 	return sig
 }
 
